@@ -420,6 +420,7 @@ func runHistory(w *World, cfg seqCfg) bool {
 		if !(w.prop == "C14" || w.prop == "C13") {
 			w.Decode(f)
 		}
+		w.ViewTool(f)
 	}
 	for _, id := range w.storeIDs() {
 		if !w.Close(w.stores[id]) {
